@@ -108,7 +108,7 @@ def body_remove_bond : List String := ["cdef uint32 v0 = _to_positive_index(a0, 
 def raises_remove_bond : List String := []
 /-- `BondList.remove_bonds_to`: (return C type, exception clause, [(parameter, C type, default)]) -/
 def sig_remove_bonds_to : String × String × List (String × String × String) := ("", "", [("self", "", ""), ("a0", "int32", "")])
-def body_remove_bonds_to : List String := ["cdef uint32 v0 = _to_positive_index(a0, self._atom_count)", "cdef np.ndarray v1 = np.ones(len(self._bonds), dtype=np.uint8)", "cdef uint8[:] v2 = v1", "cdef int v3", "cdef uint32[:,:] v4 = self._bonds", "for v3 in range(v4.shape[0]):", "  if (v4[v3,0] == v0 or v4[v3,1] == a0):", "    v2[v3] = False", "self._bonds = self._bonds[v1.astype(bool, copy=False)]"]
+def body_remove_bonds_to : List String := ["cdef uint32 v0 = _to_positive_index(a0, self._atom_count)", "cdef np.ndarray v1 = np.ones(len(self._bonds), dtype=np.uint8)", "cdef uint8[:] v2 = v1", "cdef int v3", "cdef uint32[:,:] v4 = self._bonds", "for v3 in range(v4.shape[0]):", "  if (v4[v3,0] == v0 or v4[v3,1] == v0):", "    v2[v3] = False", "self._bonds = self._bonds[v1.astype(bool, copy=False)]"]
 /-- exception classes `BondList.remove_bonds_to` raises itself, in source order -/
 def raises_remove_bonds_to : List String := []
 /-- `BondList.remove_bonds`: (return C type, exception clause, [(parameter, C type, default)]) -/
